@@ -55,7 +55,7 @@ package region
 
 //@ func region.(*compressor).decompressCellblocks
 //@   modifies nothing
-//@   panics never[C11]
+//@   panics never[C11,C15]
 //@   loop 1 invariant[C11] len(b) >= 0
 //@   loop 1 decreases[C11] len(b)
 //@   loop 2 invariant[C11] len(b) >= 0 && len(b) < variant(1)
@@ -144,6 +144,10 @@ package region
 
 // ---- region client: sent-calls table, in-flight counter, response dispatch ----
 
+// lock discipline of the call-id table: the id counter is touched only through sync/atomic, the sent table only with
+// sentM held (a value read outside the lock may already belong to another sender's registration)
+//@ atomic[C02] region.client: id
+//@ guarded[C02,C03] region.client: sent by sentM
 //@ func region.(*client).unregisterRPC
 //@   requires c.sent != nil
 //@   modifies D.map[uint32]hrpc.Call, C.map[uint32]hrpc.Call
